@@ -7,3 +7,4 @@ import RSVerif.Properties.C05
 #print axioms RS.oneshot_stale_indep
 #print axioms RS.source_global_state
 #print axioms RS.source_no_ambient_inputs
+#print axioms RS.source_reset_forgets_bookkeeping
